@@ -144,6 +144,7 @@ def build_envs(spec, cats):
     for cl in spec['clients']:
         env = O.Env(cats, spec['cat_mode'], spec['rnd_mode'], spec.get('meta_share', False), shared=shared_env, edits_in_place=single)
         env.prebuild_renderers(rds)
+        env.scribble = bool(spec.get('scribble'))
         envs.append(env)
     return shared_env, envs
 
